@@ -615,6 +615,20 @@ func (p *c20) execOverride(c c20Case, src []byte, rep *c20Rep) {
 		rep.fail("render-error/RenderBytes/"+c20ErrClass(err), "RenderBytes (no overrides, non-nil content FS) returned an error: %v\nsource: %q", err, clip(string(src), 600))
 		return
 	}
+	// a content filesystem that is a whole site (default layout, configuration, components) and overrides nothing
+	site, err := render(fstestBytes(map[string][]byte{
+		"layouts/base.vuego":  []byte(`<html><head><title>{{ title }}</title></head><body><main v-html="content"></main></body></html>`),
+		"theme.yml":           []byte("title: Site\nlayout: base\n"),
+		"components/Em.vuego": []byte(`<b>component</b>`),
+		"content/post.md":     []byte("# post\n"),
+	}))
+	if err != nil {
+		rep.fail("override/site-files/render-error", "RenderBytes with a content filesystem holding layouts/base.vuego, theme.yml, components/ and no markdown/ templates returned an error: %v\nsource: %q", err, clip(string(src), 600))
+	} else if site != base {
+		rep.fail("override/site-files/change-the-output", "a content filesystem that holds a site's own files (layouts/base.vuego, theme.yml, components/) but no markdown/ templates changes the output\nsource: %q\nwith: %q\nwithout: %q", clip(string(src), 400), clip(site, 600), clip(base, 600))
+	} else {
+		o.Cell("ovr/site-files-do-not-matter")
+	}
 	out, err := render(fstestBytes(files))
 	if err != nil {
 		rep.fail("override/render-error", "RenderBytes with overridden templates %v returned an error: %v\nsource: %q", c.Ovr, err, clip(string(src), 600))
